@@ -281,6 +281,25 @@ func (x *Exec) vrtCall(g *G, fn *ssa.Function, args []Value) Value {
 		g.syncOps = 0
 		g.stalled = k == 0
 		return nil
+	case "vStallRelease":
+		for _, o := range x.gs {
+			o.stalled = false
+			o.stallAfter = -1
+		}
+		x.stallFunc = ""
+		x.stallFuncG = nil
+		return nil
+	case "vStallFunc":
+		// vStallFunc(name, k): see noteSync; vStallFunc("", 0) releases
+		name := x.strArg(args[0])
+		x.stallFunc = name
+		x.stallFuncK = x.concInt(args[1], "stall point")
+		x.stallFuncN = 0
+		if x.stallFuncG != nil {
+			x.stallFuncG.stalled = false
+			x.stallFuncG = nil
+		}
+		return nil
 	case "vSetPreempt":
 		x.preemptBudget = x.concInt(args[0], "preempt budget")
 		return nil
